@@ -123,7 +123,12 @@ func (p *parser) advance() bool {
 			if p.lastComment.Len() > 0 {
 				p.lastComment.WriteByte('\n')
 			}
-			p.lastComment.WriteString(p.input[start:p.position])
+			end := p.position
+			if end > start && p.input[end-1] == '\r' {
+				// CRLF line ending: the carriage return is not part of the comment text
+				end--
+			}
+			p.lastComment.WriteString(p.input[start:end])
 			// consume the newline that ends the comment; at end of input there is none
 			if p.next() != '\n' {
 				p.backup()
